@@ -12,6 +12,8 @@ NOT_A_VIOLATION = {  # seeded changes judged not to violate the property as stat
              "rule; the check leaves the two boundary iterations open",
 }
 EXTRA = {  # seeded changes that are (also) caught by a different property's check
+    "C02-10": ("C01", "graph:values_equal_spec:assign (the change is in the value setter's exception path, which C01's histories with a refused value exercise; C02's programs have variable-attached distributions, for which aborted sweeps are not modelled)"),
+    "C08-11": ("C03", "update_state::returned_state_is_fully_up_to_date, and C09 real:liesel:derived_quantities_equal_recomputation_from_stored_parameters (the change is in LieselInterface.update_state; C08's engine scenarios use lookup interfaces)"),
     "C01-10": ("C17", "simulate:values_equal_spec / outdated_flags_equal_spec (the change is in Model.simulate, which is not one of C01's operations; C17's plans have direct value-node consumers)"),
     "C04-1": ("C06", "iwls:iwls_reported_acceptance_is_mh_ratio_with_gaussian_proposal_densities (the premise P2 of C04; since then C04 runs a reduced P2 conformance itself)"),
     "C09-4": ("C13", "tau2:draw_is_from_the_inverse_gamma_full_conditional (same mechanism as C13-1; since then C09 runs the Gibbs start-state traces itself)"),
